@@ -30,7 +30,7 @@ for d in sorted(os.listdir('seeded')):
         continue
     m = json.load(open(mp))
     r = res.get(d, {})
-    caught = "yes (%d violation signatures)" % r['violations'] if r.get('violations', 0) > 0 else ("NO" if r else "not run")
+    caught = "yes (%d violation signatures)" % r['violations'] if r.get('violations', 0) > 0 else (("no violation raised" if r.get('note') else "NO") if r else "not run")
     note = r.get('note', '')
     out.append(f"| `{d}` | {esc(m.get('summary',''))[:400]} | {esc(m.get('needs',''))[:300]} | {caught}{(' — ' + esc(note)) if note else ''} | `{esc(r.get('first',''))[:160]}` |")
 seeds_md = "\n".join(out)
